@@ -24,7 +24,7 @@ RULE = ("Hypothesis draws a corpus string s (with the locale a loose autodetect 
 ASSUMPTIONS = ["frozen clock, default settings (one settings hash per DEFAULT_LANGUAGES list)",
                "for a language whose lang-REGION code is not listed, the plain language is what 'selecting the region' can mean (the reported locale is lang-REGION exactly when that code is listed)",
                "experiment D resets LocaleDataLoader's class-level caches before the call so that an earlier clean load cannot mask a misbuilt locale"]
-ESSENTIAL = ["exp:A", "exp:B", "exp:C", "exp:D", "given-order", "default-languages", "region:partly-invalid", "differs-between-languages"]
+ESSENTIAL = ["tz-word-string", "exp:A", "exp:B", "exp:C", "exp:D", "given-order", "default-languages", "region:partly-invalid", "differs-between-languages"]
 
 NOW = dt.datetime(2015, 6, 15, 10, 30)
 _corpus = []
@@ -87,6 +87,8 @@ def _check(case, exp, s, cls):
         langs, given, defaults = case["langs"], case["given_order"], case["defaults"]
         if given:
             cls.append("given-order")
+        if any(s.endswith(" " + a) or s.endswith(" " + a.lower()) for a, _ in tz_words()):
+            cls.append("tz-word-string")
         if defaults:
             cls.append("default-languages")
         singles = {L: _res(_parser(languages=[L]).get_date_data(s)) for L in langs}
@@ -194,13 +196,44 @@ def _check(case, exp, s, cls):
     raise ValueError(exp)
 
 
+_tzwords = []
+
+
+def tz_words():
+    """[(abbreviation, language)]: timezone abbreviations of the library's table that are also vocabulary words of a language
+    (e.g. 'ET' in fr, 'MIT' in de): such a string is applicable to that language as it stands, and to others only once the
+    zone has been stripped."""
+    if not _tzwords:
+        from vlib import tz as vtz
+        _, abbrs, conflicts = vtz.source_tables()
+        low = {a.lower(): a for a in abbrs if a not in conflicts and a.isascii()}
+        for lang in data.language_order():
+            voc = data.vocabulary(data.info(lang), True)
+            for w in voc:
+                if w in low and lang != "en":
+                    _tzwords.append((low[w], lang))
+    return _tzwords
+
+
 @st.composite
 def cases(draw):
     e = corpus()[draw(st.integers(0, len(corpus()) - 1))]
     s, detected = e["s"], lang_of(e["locale"])
     order = data.language_order()
-    exp = draw(st.sampled_from(["A", "A", "A", "B", "C", "D"]))
+    exp = draw(st.sampled_from(["A", "A", "A", "B", "C", "D", "A-tz"]))
     c = {"exp": exp, "s": s}
+    if exp == "A-tz":
+        # a date followed by a zone abbreviation that is a word of another language
+        abbr, wl = draw(st.sampled_from(tz_words()))
+        body = draw(st.sampled_from(["12/25/2020 10:00", "25 December 2020 10:00", "2020-12-25 10:00", "25.12.2020 10:00", "10:00",
+                                     "December 25, 2020 5 PM"]))
+        others = draw(st.lists(st.sampled_from(["en", "en", "ko", "de", "es", "ru", "fr", "it", "nl", "pl"]), min_size=1, max_size=3, unique=True))
+        langs = [wl] + [o for o in others if o != wl]
+        if draw(st.booleans()):
+            langs = draw(st.permutations(langs))
+        c.update(exp="A", s=body + " " + draw(st.sampled_from([abbr, abbr.lower()])), langs=list(langs), given_order=draw(st.booleans()),
+                 defaults=None)
+        return c
     if exp == "A":
         k = draw(st.integers(2, 6))
         pool = st.one_of(st.sampled_from(order[:25]), st.sampled_from(order))
